@@ -69,8 +69,16 @@ func c09DrawOp(rt *rapid.T) c09Op {
 func c09Draw(rt *rapid.T) c09Case {
 	n := rapid.IntRange(8, 24).Draw(rt, "nops")
 	c := c09Case{}
+	last := map[string]c09Op{}
 	for i := 0; i < n; i++ {
-		c.Ops = append(c.Ops, c09DrawOp(rt))
+		o := c09DrawOp(rt)
+		if p, ok := last[o.Kind]; ok && o.Dep == 4 {
+			// same arguments as the previous op of this kind: its byte delta is the best
+			// available predictor, so limit = last lock + D lands on or next to the boundary
+			o.S, o.K, o.N = p.S, p.K, p.N
+		}
+		last[o.Kind] = o
+		c.Ops = append(c.Ops, o)
 	}
 	return c
 }
